@@ -582,8 +582,9 @@ def g_dist(ctx, rng, i):
                 continue
             ctx.judge("isometry", abs(d0 - d1) <= 1e-6 * max(1, d0), [x, y, t], what=f"dist changes under an isometry: {d0} vs {d1}", op="dist∘isometry", nontrivial=True)
         try:
-            if p == q or p == r:
-                raise core.GeometrySkip()
+            u_, v_ = (np.asarray(x.normalized_array, dtype=float)[:-1] - np.asarray(p.normalized_array, dtype=float)[:-1] for x in (q, r))
+            if p == q or p == r or (dim == 3 and np.linalg.norm(np.cross(u_, v_)) <= 1e-9 * np.linalg.norm(u_) * np.linalg.norm(v_)):
+                raise core.GeometrySkip()  # (three collinear points of space span no plane: angle legitimately raises)
             a0, a1 = float(g.angle(p, q, r)), float(g.angle(t * p, t * q, t * r))
             det = np.linalg.det(np.asarray(t.array)[:-1, :-1])
             ok = _angle_mod_pi_close(a0, a1 if det > 0 else -a1) if dim == 2 else _angle_mod_pi_close(abs(a0), abs(a1))
